@@ -1776,7 +1776,8 @@ class MindsDBParser(Parser):
         # a name written as a quoted string
         if value == '':
             raise ParsingException('Identifier can not be an empty string')
-        return Identifier.from_path_str(value)
+        # the whole string is one name: dots and back-quotes inside it are not special
+        return Identifier(parts=[value])
 
     @_('PARAMETER')
     def parameter(self, p):
